@@ -34,15 +34,20 @@ theorem C19_filter_mem (ps : List Plugin) (caps : Caps) (p : Plugin) :
   rw [C19_filter, List.mem_filter]
 
 /-- (`_partial`: the hypothesis `hr` — the detectors' required extractors can be enabled automatically, `requiredOK` —
-is needed, `C19_required_needed`; it is DISCHARGED for the real registry by `C19_required`, giving the
+is needed, `C19_required_needed`; `hk`: the tables are maps; both are DISCHARGED for the real registry by `C19_required` /
+`C19_keys_nodup`, giving the
 hypothesis-free `C19_any_selection_valid`.) Any scan configured from lists that validate passes `EnableRequiredExtractors` and `ValidatePluginRequirements` —
 for all name tables, all plugin lists, all capabilities. -/
 theorem C19_enable_valid_partial (fsT stT : Table) (fs st dets : List Plugin) (caps : Caps)
     (hfs : ∀ p ∈ fs, satisfied p.req caps = true) (hst : ∀ p ∈ st, satisfied p.req caps = true)
     (hd : ∀ d ∈ dets, satisfied d.req caps = true)
+    (hk : KeysNodup fsT ∧ KeysNodup stT)
     (hr : ∀ d ∈ dets, ∀ e ∈ d.required, requiredOK fsT stT d.req e) :
     (precheck fsT stT fs st dets caps).isOk = true := by
-  obtain ⟨c, hc, hg⟩ := enableDets_good fsT stT caps dets ⟨fs, st, _⟩ ⟨hfs, hst⟩ hd hr
+  -- `requiredOK` is the SPECIFICATION's statement (`RegisteredAs`: membership in the table); the loop consults `fromName`
+  have hr' : ∀ d ∈ dets, ∀ e ∈ d.required, requiredOKModel fsT stT d.req e :=
+    fun d hd' e he => requiredOKModel_of_spec _ _ _ _ hk.1 hk.2 (hr d hd' e he)
+  obtain ⟨c, hc, hg⟩ := enableDets_good fsT stT caps dets ⟨fs, st, _⟩ ⟨hfs, hst⟩ hd hr'
   unfold precheck enableRequired
   rw [hc]
   have : validateAll (c.fs ++ c.st ++ dets) caps = [] := by
@@ -61,6 +66,7 @@ theorem C19_enable_valid_partial (fsT stT : Table) (fs st dets : List Plugin) (c
 selected before filtering (any names, any groups, any hand-made list), as long as the selected
 detectors' required extractors can be enabled automatically. -/
 theorem C19_filtered_selection_valid_partial (fsT stT : Table) (fs st dets : List Plugin) (caps : Caps)
+    (hk : KeysNodup fsT ∧ KeysNodup stT)
     (hr : ∀ d ∈ dets, ∀ e ∈ d.required, requiredOK fsT stT d.req e) :
     (precheck fsT stT (filterByCapabilities fs caps) (filterByCapabilities st caps)
       (filterByCapabilities dets caps) caps).isOk = true := by
@@ -68,18 +74,24 @@ theorem C19_filtered_selection_valid_partial (fsT stT : Table) (fs st dets : Lis
   · intro p hp; exact ((C19_filter_mem _ _ _).1 hp).2
   · intro p hp; exact ((C19_filter_mem _ _ _).1 hp).2
   · intro p hp; exact ((C19_filter_mem _ _ _).1 hp).2
+  · exact hk
   · intro d hd; exact hr d ((C19_filter_mem _ _ _).1 hd).1
 
 /-! ### the regenerated registry -/
 
-/-- Every extractor a registered detector declares as required resolves by its exact name in the
-filesystem or the standalone table, and whatever it resolves to runs wherever the detector runs. -/
+/-- the two extractor name tables have distinct keys (they are Go maps) -/
+theorem C19_keys_nodup : KeysNodup fsNames ∧ KeysNodup stNames := by
+  unfold KeysNodup; exact ⟨by decide +kernel, by decide +kernel⟩
+
+/-- Every extractor a registered detector declares as required is registered under its exact name in the
+filesystem or the standalone table (`RegisteredAs`, the specification's own notion: an entry `name ↦ [p]` with
+`p.name = name`), and whatever is registered there runs wherever the detector runs. -/
 theorem C19_required :
     ∀ d ∈ allPlugins detAll, ∀ e ∈ d.required, requiredOK fsNames stNames d.req e := by
   have h : ∀ d ∈ allPlugins detAll, ∀ e ∈ d.required, requiredOKB fsNames stNames d.req e = true := by
     decide +kernel
   intro d hd e he
-  exact requiredOK_of_B _ _ _ _ (h d hd e he)
+  exact requiredOK_of_B _ _ _ _ C19_keys_nodup.1 C19_keys_nodup.2 (h d hd e he)
 
 /-- For every capability tuple, the scan configured from `FromCapabilities` of the three registries
 passes `EnableRequiredExtractors` + `ValidatePluginRequirements` (checked on the whole table). -/
@@ -96,7 +108,7 @@ theorem C19_any_selection_valid (fs st dets : List Plugin) (caps : Caps)
     (hd : ∀ d ∈ dets, d ∈ allPlugins detAll) :
     (precheck fsNames stNames (filterByCapabilities fs caps) (filterByCapabilities st caps)
       (filterByCapabilities dets caps) caps).isOk = true :=
-  C19_filtered_selection_valid_partial _ _ _ _ _ _ (fun d h => C19_required d (hd d h))
+  C19_filtered_selection_valid_partial _ _ _ _ _ _ C19_keys_nodup (fun d h => C19_required d (hd d h))
 
 /-- Plugin names are unique across the whole registry (filesystem + standalone + detectors). -/
 theorem C19_names_unique :
